@@ -17,6 +17,19 @@ func Round(g Geometry, factor ...int) Geometry {
 		f = float64(factor[0])
 	}
 
+	return round(g, f)
+}
+
+// round rounds with the factor already converted: a collection hands the very same
+// factor to its members (it used to go through int(f), which truncates a non-integer
+// DefaultRoundingFactor and overflows for one beyond the int range), and a typed nil
+// slice is returned as it is (it used to come back as a nil interface, which also
+// replaced a typed nil member of a collection by a nil interface in place).
+func round(g Geometry, f float64) Geometry {
+	if g == nil {
+		return nil
+	}
+
 	switch g := g.(type) {
 	case Point:
 		return Point{
@@ -25,19 +38,19 @@ func Round(g Geometry, factor ...int) Geometry {
 		}
 	case MultiPoint:
 		if g == nil {
-			return nil
+			return g
 		}
 		roundPoints([]Point(g), f)
 		return g
 	case LineString:
 		if g == nil {
-			return nil
+			return g
 		}
 		roundPoints([]Point(g), f)
 		return g
 	case MultiLineString:
 		if g == nil {
-			return nil
+			return g
 		}
 		for _, ls := range g {
 			roundPoints([]Point(ls), f)
@@ -45,13 +58,13 @@ func Round(g Geometry, factor ...int) Geometry {
 		return g
 	case Ring:
 		if g == nil {
-			return nil
+			return g
 		}
 		roundPoints([]Point(g), f)
 		return g
 	case Polygon:
 		if g == nil {
-			return nil
+			return g
 		}
 		for _, r := range g {
 			roundPoints([]Point(r), f)
@@ -59,7 +72,7 @@ func Round(g Geometry, factor ...int) Geometry {
 		return g
 	case MultiPolygon:
 		if g == nil {
-			return nil
+			return g
 		}
 		for _, p := range g {
 			for _, r := range p {
@@ -69,11 +82,11 @@ func Round(g Geometry, factor ...int) Geometry {
 		return g
 	case Collection:
 		if g == nil {
-			return nil
+			return g
 		}
 
 		for i := range g {
-			g[i] = Round(g[i], int(f))
+			g[i] = round(g[i], f)
 		}
 		return g
 	case Bound:
